@@ -3,6 +3,7 @@
 package main
 
 import (
+	"context"
 	"fmt"
 	"os"
 	"path/filepath"
@@ -495,6 +496,80 @@ func TestVerif_C19(t *testing.T) {
 		}
 	}
 	caseIdx++
+	// ---------- ranges whose end is far beyond the archive (a client asking for "everything from here on") ----------
+	// Scanning such a range slot by slot cannot finish, so the client hangs up after 3 s; what was streamed
+	// until then is compared: the address-index path answers at once and must stream exactly the matching
+	// transactions; the scan path must stream them in order (an unfinished prefix is only noted).
+	for _, end := range []uint64{^uint64(0), ^uint64(0) - 1, 1 << 62, 1000 * 432000} {
+		for _, inc := range []int{0, 1, 3} {
+			mine := vkit.Mine(caseIdx)
+			caseIdx++
+			if !mine {
+				continue
+			}
+			start, end := blockSlots[1], end
+			req := &old_faithful_grpc.StreamTransactionsRequest{StartSlot: start, EndSlot: &end}
+			if inc != 0 {
+				req.Filter = &old_faithful_grpc.StreamTransactionsFilter{AccountInclude: c19Accounts(inc, nU)}
+			}
+			req = wire(req).(*old_faithful_grpc.StreamTransactionsRequest)
+			var want []string
+			for _, tx := range all {
+				if tx.Slot < start {
+					continue
+				}
+				ok := inc == 0
+				for i := 0; i < nU; i++ {
+					if inc&(1<<i) != 0 && tx.Mentions[cargen.Account(i)] {
+						ok = true
+					}
+				}
+				if ok {
+					want = append(want, tx.Sig.String()[:8])
+				}
+			}
+			for _, withIdx := range []bool{false, true} {
+				m := mNo
+				if withIdx {
+					m = mIdx
+				}
+				q := map[string]interface{}{"rpc": "StreamTransactions", "scenario": "open-ended-range", "start": start, "end": end, "include": inc, "index_loaded": withIdx}
+				cctx, cancel := context.WithTimeout(context.Background(), 3*time.Second)
+				st := &vkTxStream{vkStreamBase: vkStreamBase{ctx: cctx}}
+				var serr error
+				okCall := guard("StreamTransactions", q, func() { serr = m.StreamTransactions(req, st) })
+				cancel()
+				if !okCall {
+					continue
+				}
+				var got []string
+				for _, r := range st.Got {
+					if r.Transaction != nil && len(r.Transaction.Transaction) > 0 {
+						got = append(got, sigOf(r.Transaction.Transaction).String()[:8])
+					}
+				}
+				R.Case(len(want) > 0, "")
+				path := "scan"
+				if withIdx && inc != 0 {
+					path = "index"
+				}
+				isPrefix := len(got) <= len(want) && fmt.Sprint(got) == fmt.Sprint(want[:len(got)])
+				switch {
+				case fmt.Sprint(got) == fmt.Sprint(want):
+					R.Outcome("open-ended:" + path + ":complete")
+				case isPrefix && serr != nil && path == "scan":
+					R.Note("open-ended range [%d,%d] on the scan path: the client hung up after %d of %d transactions (err=%v); not judged", start, end, len(got), len(want), serr)
+				default:
+					class := "wrong-set"
+					if len(got) == 0 {
+						class = "nothing-streamed"
+					}
+					R.Violation(fmt.Sprintf("C19|StreamTransactions|%s|open-ended-range|%s", path, class),
+						fmt.Sprintf("StreamTransactions[%d,%d] include=%v index_loaded=%v: want %v got %v err=%v", start, end, c19Accounts(inc, nU), withIdx, want, got, serr), q)
+				}
+			}
+		}
+	}
 	R.Sample(map[string]interface{}{"archived_transactions": len(all), "block_slots": blockSlots})
 }
 
